@@ -11,7 +11,12 @@ LEVEL = "exploration"
 COLS = ["x", "y", "col", "a.b", "n_1", "Ü", "row.id", "examples.index"]     # a column may be named like a special placeholder: the row cell wins
 VALUES = ["", "1", "v w", "x", "y", "col", "ünï", "日本", "a-b", "k=v", "0", "q.r", "Z", "  ".strip(), "it's", "50%", "{name}", "{0}",
           "b\\c", "a:b"]
-TAGVALS = ["a", "b1", "x.y", "k=v", "t-1", "Z", "ü"]
+TAGVALS = ["a", "b1", "x.y", "k=v", "t-1", "Z", "ü", "Bob\\tMarley", "two\\nlines"]     # the two-character escapes \t \n: in a
+# TAG they become '_' (documented: Bob\tMarley -> @name.Bob_Marley); everywhere else the cell text is used as written
+
+
+def tag_text(v):
+    return v.replace("\\t", "_").replace("\\n", "_")
 SCHEMAS = [None, u"{name} -- @{row.id} {examples.name}", u"{name} [{row.index}/{examples.index}]", u"{examples.name}:{row.id}:{name}",
            u"{name}", u"{row.id}", u"{name} -*- {examples.name}@{row.index} ({examples.index})"]
 RULE = ("outlines with placeholders in name, step names, doc-strings, step-table headings and cells and tags; 0-3 examples "
@@ -127,7 +132,7 @@ def expected_rows(outline, schema, row_lines):
                 .replace("{examples.name}", "\x00E").replace("{examples.index}", str(ei + 1)).replace("\x00N", name).replace("\x00E", ex_name)
             tags = []
             for t in outline["tags"]:
-                tags.append(sub2(t, ex_name))
+                tags.append(tag_text(sub2(t, ex_name)))
             tags.extend(ex["tags"])
             steps = []
             for st in outline["steps"]:
@@ -284,8 +289,15 @@ def one_case(mon, rng, sample=False):
                 ea["rows"] = [r[:j] + r[j + 1:] for r in ea["rows"]]
             mods.append(kind)
             mon.seen("modification", kind)
+        schema2 = schema
+        if mods and rng.random() < 0.3:
+            # the annotation schema is changed after the first expansion (a hook configuring it late): the rebuild that the
+            # table modification triggers uses the schema in force at that time
+            schema2 = rng.choice([x for x in SCHEMAS if x is not None and x != schema])
+            o.annotation_schema = schema2
+            mon.seen("schema_changed_between_expansions", "yes")
         if mods:
-            mon.case((text, schema, tuple(mods)), True)
+            mon.case((text, schema, schema2, tuple(mods)), True)
             try:
                 scen2 = o.scenarios
                 got2 = observed_rows(scen2)
@@ -294,7 +306,7 @@ def one_case(mon, rng, sample=False):
                     if e.table is not None:
                         for ri, r in enumerate(e.table.rows):
                             lines2[(ei, ri)] = r.line
-                want2 = expected_rows(abs2, schema, lines2)
+                want2 = expected_rows(abs2, schema2, lines2)
                 fd = next((i for i, (a, b) in enumerate(zip(got2, want2)) if a != b), None)
                 mon.check("modify.rebuilt", got2 == want2,
                           lambda: W(modifications=mods, got=[g[:2] for g in got2][:6], want=[w[:2] for w in want2][:6],
